@@ -103,6 +103,12 @@ Fixpoint ids_route (cs : list cls) (ids : list N) (pkt : PktCls.layer) : option 
 Definition entry_route (cs : list cls) (e : entry) (pkt : PktCls.layer) : option N :=
   ids_route cs (e_ids e) pkt.
 
+(** statement level: does the class with this index match, and what is its session *)
+Definition cls_matches (cs : list cls) (pkt : PktCls.layer) (id : N) : bool :=
+  match find_cls cs id with Some c => PktCls.eval (c_cond c) pkt | None => false end.
+Definition cls_session (cs : list cls) (id : N) : option N :=
+  match find_cls cs id with Some c => c_sess c | None => None end.
+
 (** RoutingTable.route: scan, keep the result of the last entry that contains
     the destination and whose mask is not shorter than the best so far *)
 Fixpoint route_scan (cs : list cls) (es : list entry) (dst : ipaddr) (pkt : PktCls.layer)
@@ -226,6 +232,12 @@ Definition match_step (from to : ia) (r : rule) (s : ipaddr -> bool) : ipaddr ->
 Definition match_set (p : policy) (from to : ia) (pref : prefix) (a : ipaddr) : bool :=
   fold_right (match_step from to) (fun _ => action_eqb (p_default p) AAccept) (p_rules p) a
   && in_prefix pref a.
+
+(** statement level: the rule matches the ISD-AS pair and the address; what it decides *)
+Definition applies (r : rule) (from to : ia) (a : ipaddr) : bool :=
+  ia_match (r_from r) from && ia_match (r_to r) to && net_set (r_net r) a.
+Definition decides (r : rule) : option bool :=
+  match r_action r with AAccept => Some true | AReject => Some false | _ => None end.
 
 (** the specification: the first accept / reject rule that matches decides *)
 Fixpoint first_decision (rules : list rule) (from to : ia) (a : ipaddr) : option bool :=
